@@ -161,6 +161,9 @@ impl super::Authorizer {
             for fact in &facts {
                 let fact = proto_fact_to_token_fact(fact)?;
                 //let fact = Fact::convert_from(&fact, &symbols)?.convert(&mut authorizer.symbols);
+                // every symbol of a restored fact must be in the restored table:
+                // dumping the authorizer relies on it
+                crate::builder::Fact::convert_from(&fact, &authorizer.symbols)?;
                 authorizer.world.facts.insert(&origin, fact);
             }
         }
